@@ -16,10 +16,12 @@ variable {R ρ : Type} [CommRing R] [DecidableEq R]
 def splitMat (A : T3 R) (d0 d1 : Nat) : Mat R :=
   ⟨d0 * A.d1, d1 * A.d2, fun r c => A.f ((r / A.d1) * d1 + c / A.d2) (r % A.d1) (c % A.d2)⟩
 
-theorem split_merge (k : SvdKernels R ρ) (dsqrt : ρ → ρ) (A : T3 R) (qd0 qd1 qD0 qD2 : List Int) (distr : Nat)
+/-- version with the hypotheses only required when the reshaped matrix is non-empty -/
+theorem split_merge' (k : SvdKernels R ρ) (dsqrt : ρ → ρ) (A : T3 R) (qd0 qd1 qD0 qD2 : List Int) (distr : Nat)
     (tol : ρ) (B0 B1 : T3 R) (qb : List Int)
     (h : splitMpsTensor k dsqrt A qd0 qd1 qD0 qD2 distr tol = .ok (B0, B1, qb))
-    (hrec : ∀ U σ V q, splitMatrixSvd k.dsvd k.dnorm k.dargsort (splitMat A qd0.length qd1.length).tab
+    (hrec : 0 < qd0.length * A.d1 → 0 < qd1.length * A.d2 →
+      ∀ U σ V q, splitMatrixSvd k.dsvd k.dnorm k.dargsort (splitMat A qd0.length qd1.length).tab
         (QN.flatten2 qd0 qD0) (QN.flatten2 (QN.neg qd1) qD2) tol = .ok (U, σ, V, q) →
         (distr = 2 → ∀ p < σ.length, (RealLike.ofReal (dsqrt (σ.getD p 0)) : R) * RealLike.ofReal (dsqrt (σ.getD p 0))
             = RealLike.ofReal (σ.getD p 0)) ∧
@@ -34,7 +36,6 @@ theorem split_merge (k : SvdKernels R ρ) (dsqrt : ρ → ρ) (A : T3 R) (qd0 qd
   have hd : qd0.length * qd1.length = A.d0 := by simpa using hd
   simp only [bind_ok] at h
   obtain ⟨⟨U, σ, V, q⟩, hsvd, h⟩ := h
-  obtain ⟨hsq, hrec⟩ := hrec U σ V q hsvd
   simp only at h
   split at h
   · rw [throw_bind_ne] at h
@@ -49,6 +50,7 @@ theorem split_merge (k : SvdKernels R ρ) (dsqrt : ρ → ρ) (A : T3 R) (qd0 qd
     have hs1 : s % qd1.length < qd1.length := mod_lt_of_lt_mul' hs
     have hi := fused_lt hs0 ha
     have hj := fused_lt hs1 hc
+    obtain ⟨hsq, hrec⟩ := hrec (by omega) (by omega) U σ V q hsvd
     have e := hrec _ hi _ hj
     simp only [splitMat, fused_div ha, fused_mod ha, fused_div hc, fused_mod hc, Nat.div_add_mod'] at e
     rw [← e]
@@ -64,5 +66,19 @@ theorem split_merge (k : SvdKernels R ρ) (dsqrt : ρ → ρ) (A : T3 R) (qd0 qd
     · simp; ring
     · simp only [OfNat.ofNat_ne_one, if_false, OfNat.ofNat_ne_zero]
       rw [← hsq rfl p hp]; ring
+
+theorem split_merge (k : SvdKernels R ρ) (dsqrt : ρ → ρ) (A : T3 R) (qd0 qd1 qD0 qD2 : List Int) (distr : Nat)
+    (tol : ρ) (B0 B1 : T3 R) (qb : List Int)
+    (h : splitMpsTensor k dsqrt A qd0 qd1 qD0 qD2 distr tol = .ok (B0, B1, qb))
+    (hrec : ∀ U σ V q, splitMatrixSvd k.dsvd k.dnorm k.dargsort (splitMat A qd0.length qd1.length).tab
+        (QN.flatten2 qd0 qD0) (QN.flatten2 (QN.neg qd1) qD2) tol = .ok (U, σ, V, q) →
+        (distr = 2 → ∀ p < σ.length, (RealLike.ofReal (dsqrt (σ.getD p 0)) : R) * RealLike.ofReal (dsqrt (σ.getD p 0))
+            = RealLike.ofReal (σ.getD p 0)) ∧
+        ∀ i < qd0.length * A.d1, ∀ j < qd1.length * A.d2,
+          ∑ p ∈ range σ.length, U.f i p * RealLike.ofReal (σ.getD p 0) * V.f p j
+            = (splitMat A qd0.length qd1.length).f i j) :
+    (mergePair B0 B1).d0 = A.d0 ∧ (mergePair B0 B1).d1 = A.d1 ∧ (mergePair B0 B1).d2 = A.d2 ∧
+    ∀ s < A.d0, ∀ a < A.d1, ∀ c < A.d2, (mergePair B0 B1).f s a c = A.f s a c :=
+  split_merge' k dsqrt A qd0 qd1 qD0 qD2 distr tol B0 B1 qb h (fun _ _ => hrec)
 
 end Ptn.MPS
